@@ -209,19 +209,39 @@ def check_sat(constraints, timeout_ms=20000, tag="", extra_z3=(), tactic=None, w
     return Result(status, model, dt, tag)
 
 
-def prove(hyps, claim, timeout_ms=20000, tag="", retry=True):
-    """Is `claim` implied by `hyps`?  unsat of hyps & not claim.  sat -> model of the negation."""
+def _model_ok(cons, model):
+    """exact re-evaluation of the constraints under a model (when no uninterpreted application occurs)"""
+    try:
+        env = {v: val for v, val in model.items() if isinstance(v, Sym)}
+        for v in S.free_vars(cons):
+            env.setdefault(v, Fraction(0) if v.sort == S.REAL else False)
+        vals = S.evaluate_exact(cons, env)
+        return all(bool(vals[c.hid]) for c in cons)
+    except (S.SymError, ZeroDivisionError, KeyError):
+        return None
+
+
+def prove(hyps, claim, timeout_ms=20000, tag="", retry=True, prefer="smt"):
+    """Is `claim` implied by `hyps`?  unsat of hyps & not claim.  sat -> model of the negation.
+    Strategy: (1) z3's `smt` tactic (linear arithmetic + incremental non-linear lemmas; an `unsat`
+    from it is sound and usually immediate for identities that hold structurally), (2) the default
+    solver (nlsat for QF_NRA), (3) the qfnra-nlsat tactic."""
     claim = S.lift(claim)
     if claim is S.TRUE:
-        # still counts as an obligation discharged by construction; record as trivial
         STATS.record((tag or "untagged") + ":trivial", "unsat", 0.0, 0)
         return Result("unsat", None, 0.0, tag)
-    cons = list(hyps) + [S.Not(claim)]
-    r = check_sat(cons, timeout_ms=timeout_ms, tag=tag)
+    cons = [S.lift(h) for h in hyps] + [S.Not(claim)]
+    if prefer == "smt":
+        r = check_sat(cons, timeout_ms=1500, tag=tag, tactic="smt")
+        if r.status == "unsat":
+            return r
+        if r.status == "sat" and _model_ok(cons, r.model) is not False:
+            return r
+    r = check_sat(cons, timeout_ms=timeout_ms, tag=tag + ":nlsat")
     if r.status == "unknown" and retry:
-        for tac in ("qfnra-nlsat", "smt"):
+        for tac in ("smt", "qfnra-nlsat"):
             r2 = check_sat(cons, timeout_ms=timeout_ms, tag=tag + ":retry-" + tac, tactic=tac)
-            if r2.status != "unknown":
+            if r2.status == "unsat" or (r2.status == "sat" and _model_ok(cons, r2.model) is not False):
                 return r2
     return r
 
